@@ -5,7 +5,8 @@ From Coq Require Import ZArith List Bool.
 From Gen Require Import Constants.
 From Model Require Import Text AsmAst Obj Assembler.
 From Spec Require Import LayoutSpec WfSpec.
-From Proofs Require Import AsmPass1 AsmBlocks AsmThms.
+From Spec Require Import LineSpec.
+From Proofs Require Import AsmPass1 AsmBlocks AsmThms AsmLines.
 Import ListNotations.
 Open Scope Z_scope.
 
@@ -39,6 +40,15 @@ Print Assumptions C02_violation_is_ill_formed.
 Theorem C02_total : forall p, typed p = true -> assemble false None p <> APanic.
 Proof. exact total_plain. Qed.
 Print Assumptions C02_total.
+
+(* with debug symbols: for parser output (statements on strictly increasing lines of the text) *)
+Theorem C02_total_debug : forall src p, typed p = true -> lines_inc src p -> assemble true (Some src) p <> APanic.
+Proof. exact assemble_debug_total. Qed.
+Print Assumptions C02_total_debug.
+Theorem C02_accepts_iff_debug_parsed : forall src p, typed p = true -> lines_inc src p ->
+  ((exists o, assemble true (Some src) p = AOk o) <-> wf p = true).
+Proof. intros src p T LI. exact (accepts_iff_debug src p T (assemble_debug_total src p T LI)). Qed.
+Print Assumptions C02_accepts_iff_debug_parsed.
 
 (* the location counter of pass 1 is the unbounded positional address as long as no error was
    returned: a step that ends exactly at x10000 is BlockInIO, one beyond is WrappingBlock *)
